@@ -19,7 +19,8 @@ def run(ctx):
     ic.design(ctx, [("MC_IndexQuick.cfg" if ctx.quick else "MC_IndexStart.cfg", "indexed start, edit alphabet"),
                     ("MC_IndexPaths.cfg", "explicit-path reindex runs")])
     q = ctx.quick
-    sims = [("Sim_IndexAll.cfg", 60 if q else 1200, 12), ("Sim_IndexEdit.cfg", 30 if q else 600, 12)]
+    sims = [("Sim_IndexAll.cfg", 50 if q else 1200, 12), ("Sim_IndexEdit.cfg", 25 if q else 600, 12),
+            ("Sim_IndexScript06.cfg", 16 if q else 200, 8)]
     res = ic.tour(ctx, sims, {"idempotence": False, "rebuild": True}, cats, "C06")
     for x in res[:2]:
         ctx.sample({"behaviour": x["actions"], "commands": x["commands"]})
